@@ -14,6 +14,9 @@ package main
 //       images map; the comparator of sort.Slice; the Digest field of the
 //       ArchImageInfo appended per architecture; that the per-architecture loop has
 //       no continue/break.
+//   spdx.go Generate    the loop that numbers an apk element's id while it is taken by a
+//       package of another name or version (fix 7c2586e): its presence, the first
+//       number, the format of the numbered id and the predicate of the helper it asks.
 // Locals may be renamed and independent statements reordered without changing
 // the output.  A shape the tracer does not know is reported as POther "<text>"
 // (the theorems about the provenance then fail); a vanished function or field
@@ -346,10 +349,189 @@ func c11VCS(rel string, caller *c11Fn, call *ast.CallExpr) string {
 	return inner
 }
 
+// c11IDPolicy reads, in the loop of Generate over opts.Packages, what happens to the element's id
+// between `<p>.ID = stringToIdentifier(...)` and `doc.Packages = append(doc.Packages, <p>)`:
+//
+//	nothing                                                              -> IdAsIs
+//	for <base>, <n> := <p>.ID, <k>; <taken>(<doc>, &<p>); <n>++ { <p>.ID = fmt.Sprintf("%s-%d", <base>, <n>) }
+//	with <taken> returning true exactly for a package q of the document with
+//	q.ID == p.ID && (q.Name != p.Name || q.Version != p.Version)       -> IdNumbered k
+//	anything else                                                        -> IdOther "<text>"
+func c11IDPolicy() string {
+	const rel = "pkg/sbom/generator/spdx/spdx.go"
+	fd := findFunc(rel, "SPDX", "Generate")
+	if fd == nil {
+		return "(IdOther \"no Generate\")"
+	}
+	flat := func(n ast.Node) string { return strings.Join(strings.Fields(exprText(n)), " ") }
+	var loop *ast.RangeStmt
+	ast.Inspect(fd.Body, func(n ast.Node) bool {
+		if rs, ok := n.(*ast.RangeStmt); ok && loop == nil && strings.HasSuffix(exprText(rs.X), ".Packages") && strings.HasPrefix(exprText(rs.X), "opts") {
+			loop = rs
+		}
+		return true
+	})
+	if loop == nil {
+		fail("%s: Generate: no loop over opts.Packages", rel)
+		return "(IdOther \"no loop over opts.Packages\")"
+	}
+	// the element variable: the one appended to doc.Packages
+	pv, from, to := "", -1, -1
+	for i, st := range loop.Body.List {
+		as, ok := st.(*ast.AssignStmt)
+		if !ok || len(as.Lhs) != 1 || len(as.Rhs) != 1 {
+			continue
+		}
+		if c, ok := as.Rhs[0].(*ast.CallExpr); ok && exprText(c.Fun) == "append" && len(c.Args) == 2 && exprText(as.Lhs[0]) == exprText(c.Args[0]) && strings.HasSuffix(exprText(as.Lhs[0]), ".Packages") {
+			if id, ok := c.Args[1].(*ast.Ident); ok {
+				pv, to = id.Name, i
+			}
+		}
+	}
+	if pv == "" {
+		fail("%s: Generate: the apk loop does not append its element to the document's packages", rel)
+		return "(IdOther \"no append\")"
+	}
+	for i, st := range loop.Body.List[:to] {
+		if as, ok := st.(*ast.AssignStmt); ok && len(as.Lhs) == 1 && exprText(as.Lhs[0]) == pv+".ID" && len(as.Rhs) == 1 {
+			if c, ok := as.Rhs[0].(*ast.CallExpr); ok && exprText(c.Fun) == "stringToIdentifier" {
+				from = i
+			}
+		}
+	}
+	if from < 0 {
+		fail("%s: Generate: no `%s.ID = stringToIdentifier(...)` before the append", rel, pv)
+		return "(IdOther \"no id assignment\")"
+	}
+	// statements between the two that touch the id
+	var touching []ast.Stmt
+	for _, st := range loop.Body.List[from+1 : to] {
+		if strings.Contains(flat(st), pv+".ID") || strings.Contains(flat(st), "&"+pv) {
+			touching = append(touching, st)
+		}
+	}
+	if len(touching) == 0 {
+		return "IdAsIs"
+	}
+	other := func() string {
+		var ts []string
+		for _, st := range touching {
+			ts = append(ts, flat(st))
+		}
+		return "(IdOther " + coqStr(strings.Join(ts, " ; ")) + ")"
+	}
+	if len(touching) != 1 {
+		return other()
+	}
+	fs, ok := touching[0].(*ast.ForStmt)
+	if !ok || fs.Init == nil || fs.Cond == nil || fs.Post == nil || len(fs.Body.List) != 1 {
+		return other()
+	}
+	init, ok := fs.Init.(*ast.AssignStmt)
+	if !ok || init.Tok != token.DEFINE || len(init.Lhs) != 2 || len(init.Rhs) != 2 || exprText(init.Rhs[0]) != pv+".ID" {
+		return other()
+	}
+	base, n := exprText(init.Lhs[0]), exprText(init.Lhs[1])
+	first, ok := intLit(init.Rhs[1])
+	if !ok || first < 0 {
+		return other()
+	}
+	if post, ok := fs.Post.(*ast.IncDecStmt); !ok || post.Tok != token.INC || exprText(post.X) != n {
+		return other()
+	}
+	if flat(fs.Body.List[0]) != fmt.Sprintf("%s.ID = fmt.Sprintf(\"%%s-%%d\", %s, %s)", pv, base, n) {
+		return other()
+	}
+	cond, ok := fs.Cond.(*ast.CallExpr)
+	if !ok || len(cond.Args) != 2 || exprText(cond.Args[1]) != "&"+pv {
+		return other()
+	}
+	helper, ok := cond.Fun.(*ast.Ident)
+	if !ok {
+		return other()
+	}
+	hd := findFunc(rel, "", helper.Name)
+	if hd == nil || len(hd.Type.Params.List) != 2 || len(hd.Type.Params.List[0].Names) != 1 || len(hd.Type.Params.List[1].Names) != 1 {
+		return other()
+	}
+	docv, pp := hd.Type.Params.List[0].Names[0].Name, hd.Type.Params.List[1].Names[0].Name
+	// the helper: one loop over <doc>.Packages whose body binds q (by index or by value) and returns true
+	// on the predicate; `return false` after it
+	if len(hd.Body.List) != 2 || flat(hd.Body.List[1]) != "return false" {
+		return "(IdOther " + coqStr("helper "+helper.Name+": "+flat(hd.Body)) + ")"
+	}
+	rs, ok := hd.Body.List[0].(*ast.RangeStmt)
+	if !ok || exprText(rs.X) != docv+".Packages" {
+		return "(IdOther " + coqStr("helper "+helper.Name+": "+flat(hd.Body)) + ")"
+	}
+	q := ""
+	var test *ast.IfStmt
+	for _, st := range rs.Body.List {
+		switch x := st.(type) {
+		case *ast.AssignStmt:
+			if len(x.Lhs) == 1 && len(x.Rhs) == 1 && rs.Key != nil {
+				r := flat(x.Rhs[0])
+				if r == fmt.Sprintf("&%s.Packages[%s]", docv, exprText(rs.Key)) || r == fmt.Sprintf("%s.Packages[%s]", docv, exprText(rs.Key)) {
+					q = exprText(x.Lhs[0])
+					continue
+				}
+			}
+			return "(IdOther " + coqStr("helper "+helper.Name+": "+flat(hd.Body)) + ")"
+		case *ast.IfStmt:
+			if test != nil || x.Else != nil || x.Init != nil || len(x.Body.List) != 1 || flat(x.Body.List[0]) != "return true" {
+				return "(IdOther " + coqStr("helper "+helper.Name+": "+flat(hd.Body)) + ")"
+			}
+			test = x
+		default:
+			return "(IdOther " + coqStr("helper "+helper.Name+": "+flat(hd.Body)) + ")"
+		}
+	}
+	if q == "" && rs.Value != nil {
+		q = exprText(rs.Value)
+	}
+	if test == nil || q == "" {
+		return "(IdOther " + coqStr("helper "+helper.Name+": "+flat(hd.Body)) + ")"
+	}
+	// the predicate with the two names normalised
+	canon := func(e ast.Expr) string {
+		var rec func(e ast.Expr) string
+		rec = func(e ast.Expr) string {
+			switch x := e.(type) {
+			case *ast.ParenExpr:
+				return "(" + rec(x.X) + ")"
+			case *ast.BinaryExpr:
+				return rec(x.X) + " " + x.Op.String() + " " + rec(x.Y)
+			case *ast.SelectorExpr:
+				if id, ok := x.X.(*ast.Ident); ok {
+					switch id.Name {
+					case q:
+						return "$q." + x.Sel.Name
+					case pp:
+						return "$p." + x.Sel.Name
+					}
+				}
+			}
+			return flat(e)
+		}
+		return rec(e)
+	}
+	pred := canon(test.Cond)
+	okPreds := map[string]bool{
+		"$q.ID == $p.ID && ($q.Name != $p.Name || $q.Version != $p.Version)": true,
+		"$p.ID == $q.ID && ($p.Name != $q.Name || $p.Version != $q.Version)": true,
+		"$q.ID == $p.ID && ($q.Version != $p.Version || $q.Name != $p.Name)": true,
+	}
+	if !okPreds[pred] {
+		return "(IdOther " + coqStr("helper "+helper.Name+" tests "+pred) + ")"
+	}
+	return fmt.Sprintf("(IdNumbered %d%%N)", first)
+}
+
 func genC11() {
 	const rel = "pkg/build/sbom.go"
 	g := newGen("C11Prov", "From Apko Require Import Base.Prelude Base.C11Lib.\nOpen Scope string_scope.")
 	def := func(name, term, what string) { g.def(name, "prov", term, what) }
+	g.def("apk_id_policy", "id_policy", c11IDPolicy(), "spdx.go Generate: what happens to an apk element's id between stringToIdentifier and the append")
 
 	// ---- GenerateImageSBOM
 	if f := c11NewFn(rel, "Context", "GenerateImageSBOM"); f != nil {
